@@ -3,7 +3,7 @@ split by the real code; TLC judges (source before/after in both views, capacitie
 import json
 
 from harness import core, project as P
-from harness.common import pmap, build, via
+from harness.common import pmap, build, via, doubled
 from harness.drive_quantise import random_score
 
 
@@ -12,7 +12,8 @@ def execute(case):
     line = {"caps": caps, "src": [], "srcAfter": [], "absBefore": [], "absAfter": [], "pieces": [], "raised": "",
             "case": {"score": score, "caps": caps}}
     try:
-        seq = build(score, via(idx))
+        # every seventh case: the score played twice by concatenating one object with itself (shared Message objects)
+        seq = doubled(score, via(idx)) if idx % 7 == 6 else build(score, via(idx))
         line["src"] = P.raw_rel(seq)
         line["absBefore"] = P.raw_abs(seq)
         pieces = seq.split(list(caps))
